@@ -44,9 +44,15 @@ const (
 	tSliceStr
 	tRegex
 	tVoid
+	tWriter  // an io.Writer parameter: modelled as the bytes written so far (a Str that only grows)
+	tComment // receiver of comment.render: the comment text
+	tTag     // receiver of tag.render / tag.isNull: the tag's map
+	tNil
+	tError
+	tIgnored // a parameter the translated functions never use (the context statement of render)
 )
 
-var leanTy = map[aty]string{tStr: "Str", tBool: "Bool", tInt: "Int", tDef: "Def", tFile: "FileS", tMapDef: "List (Str × Def)", tMapStr: "List (Str × Str)", tSliceStr: "List Str"}
+var leanTy = map[aty]string{tStr: "Str", tBool: "Bool", tInt: "Int", tDef: "Def", tFile: "FileS", tMapDef: "List (Str × Def)", tMapStr: "List (Str × Str)", tSliceStr: "List Str", tWriter: "Str", tComment: "Str", tTag: "List (Str × Str)"}
 
 // fields of jen.File that the registry functions may touch -> (FileS field, type)
 var fileFields = map[string]struct {
@@ -54,7 +60,8 @@ var fileFields = map[string]struct {
 	t    aty
 }{
 	"path": {"path", tStr}, "imports": {"imports", tMapDef}, "hints": {"hints", tMapDef}, "PackagePrefix": {"pfx", tStr},
-	"name": {"name", tStr},
+	"name": {"name", tStr}, "cgoPreamble": {"cgo", tSliceStr}, "headers": {"headers", tSliceStr}, "comments": {"comments", tSliceStr},
+	"CanonicalPath": {"canonical", tStr}, "NoFormat": {"noFormat", tBool},
 }
 
 type algo struct {
@@ -72,6 +79,8 @@ type algo struct {
 	cur         string
 	fresh       int
 	regexes     map[string]string // local var -> pattern
+	writer      map[string]string // function -> name of its io.Writer parameter
+	inLoopBody  int
 }
 
 type aenv map[string]aty
@@ -111,6 +120,14 @@ func goType(e ast.Expr) aty {
 		return tMapStr
 	case "[]string", "...string":
 		return tSliceStr
+	case "io.Writer":
+		return tWriter
+	case "error":
+		return tError
+	case "*Statement":
+		return tIgnored
+	case "map[string]importdef":
+		return tMapDef
 	}
 	return tUnknown
 }
@@ -172,6 +189,8 @@ func (a *algo) expr(e ast.Expr, env aenv) (string, aty) {
 			return "false", tBool
 		case "f":
 			return "f", tFile
+		case "nil":
+			return "()", tNil
 		}
 		if x.Name == a.reservedVar {
 			return "Gen.reserved", tSliceStr
@@ -193,6 +212,14 @@ func (a *algo) expr(e ast.Expr, env aenv) (string, aty) {
 				bail("File field %s is outside the translated subset", x.Sel.Name)
 			}
 			return base + "." + ff.lean, ff.t
+		case tComment:
+			if x.Sel.Name == "comment" {
+				return base, tStr
+			}
+		case tTag:
+			if x.Sel.Name == "items" {
+				return base, tMapStr
+			}
 		case tDef:
 			switch x.Sel.Name {
 			case "name":
@@ -282,6 +309,9 @@ func (a *algo) expr(e ast.Expr, env aenv) (string, aty) {
 		}
 		return "(Go.slice " + s + " " + lo + " " + hi + ")", tStr
 	case *ast.CompositeLit:
+		if t := goType(x.Type); (t == tSliceStr || t == tMapDef) && len(x.Elts) == 0 {
+			return "([] : " + leanTy[t] + ")", t
+		}
 		if goType(x.Type) != tDef {
 			bail("composite literal %s", nodeStr(x.Type))
 		}
@@ -335,9 +365,30 @@ func (a *algo) call(x *ast.CallExpr, env aenv) (string, aty) {
 	switch fun {
 	case "len":
 		v, t := a.expr(x.Args[0], env)
-		if len(x.Args) == 1 && t == tStr {
+		if len(x.Args) == 1 && (t == tStr || t == tSliceStr || t == tMapDef || t == tMapStr) {
 			return "(Int.ofNat " + v + ".length)", tInt
 		}
+	case "[]byte", "string":
+		if len(x.Args) == 1 {
+			v, t := a.expr(x.Args[0], env)
+			if t == tStr {
+				return v, tStr
+			}
+		}
+	case "append":
+		if len(x.Args) == 2 && x.Ellipsis == token.NoPos {
+			l, lt := a.expr(x.Args[0], env)
+			e, et := a.expr(x.Args[1], env)
+			if lt == tSliceStr && et == tStr {
+				return "(" + l + " ++ [" + e + "])", tSliceStr
+			}
+		}
+	case "strconv.Quote":
+		ar := a.args(x, env, tStr)
+		return "(Quote.quote cfg.isPrint " + ar[0] + ")", tStr
+	case "strconv.CanBackquote":
+		ar := a.args(x, env, tStr)
+		return "(Quote.canBackquote " + ar[0] + ".length " + ar[0] + ")", tBool
 	case "strings.HasSuffix":
 		ar := a.args(x, env, tStr, tStr)
 		return "(Go.hasSuffix " + ar[0] + " " + ar[1] + ")", tBool
@@ -392,6 +443,9 @@ func (a *algo) call(x *ast.CallExpr, env aenv) (string, aty) {
 			if id.Name == "f" {
 				return a.callFn("File."+sel.Sel.Name, x, env)
 			}
+			if env[id.Name] == tTag {
+				return a.callFnRecv("tag."+sel.Sel.Name, lv(id.Name), x, env)
+			}
 		}
 	}
 	if id, ok := x.Fun.(*ast.Ident); ok {
@@ -432,6 +486,8 @@ func (a *algo) sprintf(format string, args []ast.Expr, env aenv) string {
 			parts = append(parts, v)
 		case format[i] == 'd' && t == tInt:
 			parts = append(parts, "(Str.intDec "+v+")")
+		case format[i] == 'q' && t == tStr:
+			parts = append(parts, "(Quote.quote cfg.isPrint "+v+")")
 		case format[i] == 'v' && t == tStr:
 			parts = append(parts, v)
 		case format[i] == 'v' && t == tInt:
@@ -452,9 +508,29 @@ func (a *algo) sprintf(format string, args []ast.Expr, env aenv) string {
 	return "(" + strings.Join(parts, " ++ ") + ")"
 }
 
-func leanName(key string) string { return key[strings.Index(key, ".")+1:] }
+func leanName(key string) string {
+	recv, name := key[:strings.Index(key, ".")], key[strings.Index(key, ".")+1:]
+	if recv == "" || recv == "File" {
+		return name
+	}
+	return recv + "_" + name
+}
+
+// the writer parameter of a function (its accumulated output is what the translation returns)
+func writerParam(d *ast.FuncDecl) string {
+	for _, p := range d.Type.Params.List {
+		if goType(p.Type) == tWriter && len(p.Names) == 1 {
+			return p.Names[0].Name
+		}
+	}
+	return ""
+}
 
 func (a *algo) callFn(key string, x *ast.CallExpr, env aenv) (string, aty) {
+	return a.callFnRecv(key, "", x, env)
+}
+
+func (a *algo) callFnRecv(key string, recvArg string, x *ast.CallExpr, env aenv) (string, aty) {
 	d := a.fns[key]
 	if d == nil {
 		bail("call of %s, which is not a translated function", key)
@@ -466,13 +542,32 @@ func (a *algo) callFn(key string, x *ast.CallExpr, env aenv) (string, aty) {
 	if a.mutates[key] {
 		bail("call of the mutating function %s inside an expression", key)
 	}
-	var want []aty
+	var argv []string
+	i := 0
 	for _, p := range d.Type.Params.List {
 		for range p.Names {
-			want = append(want, goType(p.Type))
+			if i >= len(x.Args) {
+				bail("arity of %s", nodeStr(x))
+			}
+			pt := goType(p.Type)
+			if pt == tIgnored {
+				if nodeStr(x.Args[i]) != "nil" {
+					bail("non-nil context statement in %s", nodeStr(x))
+				}
+				i++
+				continue
+			}
+			v, t := a.expr(x.Args[i], env)
+			if t != pt {
+				bail("argument %d of %s", i, nodeStr(x))
+			}
+			argv = append(argv, v)
+			i++
 		}
 	}
-	ar := a.args(x, env, want...)
+	if i != len(x.Args) || x.Ellipsis != token.NoPos {
+		bail("arity of %s", nodeStr(x))
+	}
 	s := "(" + leanName(key) + " cfg"
 	if a.needsLib[key] {
 		s += " lib"
@@ -482,10 +577,13 @@ func (a *algo) callFn(key string, x *ast.CallExpr, env aenv) (string, aty) {
 		s += " fuel"
 		a.needsFuel[a.cur] = true
 	}
-	if strings.HasPrefix(key, "File.") {
+	switch {
+	case strings.HasPrefix(key, "File."):
 		s += " f"
+	case strings.HasPrefix(key, "comment."), strings.HasPrefix(key, "tag."):
+		s += " " + recvArg
 	}
-	for _, v := range ar {
+	for _, v := range argv {
 		s += " " + v
 	}
 	return s + ")", a.retTy[key]
@@ -501,6 +599,8 @@ func returnsAll(list []ast.Stmt) bool {
 	switch s := list[len(list)-1].(type) {
 	case *ast.ReturnStmt:
 		return true
+	case *ast.BranchStmt:
+		return s.Tok == token.CONTINUE && s.Label == nil
 	case *ast.IfStmt:
 		if s.Else == nil {
 			return false
@@ -520,9 +620,26 @@ func returnsAll(list []ast.Stmt) bool {
 	return false
 }
 
+// `if [_,] err := …; err != nil { return err }` — the shape of every guarded write
+func isWriteGuard(x *ast.IfStmt) bool {
+	as, ok := x.Init.(*ast.AssignStmt)
+	if !ok || as.Tok != token.DEFINE || len(as.Rhs) != 1 || x.Else != nil || len(x.Body.List) != 1 {
+		return false
+	}
+	errName := nodeStr(as.Lhs[len(as.Lhs)-1])
+	if strings.Join(strings.Fields(nodeStr(x.Cond)), "") != errName+"!=nil" {
+		return false
+	}
+	rs, ok := x.Body.List[0].(*ast.ReturnStmt)
+	return ok && len(rs.Results) == 1 && nodeStr(rs.Results[0]) == errName
+}
+
 func hasReturn(n ast.Node) bool {
 	found := false
 	ast.Inspect(n, func(m ast.Node) bool {
+		if is, ok := m.(*ast.IfStmt); ok && isWriteGuard(is) {
+			return false
+		}
 		if _, ok := m.(*ast.ReturnStmt); ok {
 			found = true
 		}
@@ -548,6 +665,11 @@ func assigned(list []ast.Stmt, env aenv) []string {
 			if sel, ok := l.X.(*ast.SelectorExpr); ok {
 				if id, ok := sel.X.(*ast.Ident); ok && id.Name == "f" {
 					set["f"] = true
+				}
+			}
+			if id, ok := l.X.(*ast.Ident); ok {
+				if _, ok := env[id.Name]; ok && !local[id.Name] {
+					set[id.Name] = true
 				}
 			}
 		case *ast.SelectorExpr:
@@ -578,6 +700,11 @@ func assigned(list []ast.Stmt, env aenv) []string {
 				}
 			case *ast.IncDecStmt:
 				mark(x.X, loc)
+			case *ast.ExprStmt:
+				// sort.Strings(x) sorts in place
+				if c, ok := x.X.(*ast.CallExpr); ok && len(c.Args) == 1 && strings.Join(strings.Fields(nodeStr(c.Fun)), "") == "sort.Strings" {
+					mark(c.Args[0], loc)
+				}
 			case *ast.DeclStmt:
 				if gd, ok := x.Decl.(*ast.GenDecl); ok {
 					for _, sp := range gd.Specs {
@@ -600,6 +727,13 @@ func assigned(list []ast.Stmt, env aenv) []string {
 								inner[id.Name] = true
 							}
 						}
+						// a write: every writer mentioned in the initialiser grows
+						ast.Inspect(as.Rhs[0], func(n ast.Node) bool {
+							if id, ok := n.(*ast.Ident); ok && env[id.Name] == tWriter && !loc[id.Name] {
+								set[id.Name] = true
+							}
+							return true
+						})
 					}
 				}
 				walk(x.Body.List, inner)
@@ -704,6 +838,12 @@ func (a *algo) ret(e *ast.ReturnStmt, env aenv) string {
 	if len(e.Results) != 1 {
 		bail("multiple results")
 	}
+	if w := a.writer[key]; w != "" && a.retTy[key] == tWriter {
+		if nodeStr(e.Results[0]) != "nil" {
+			bail("returns the error %s (only write errors may be returned)", nodeStr(e.Results[0]))
+		}
+		return lv(w)
+	}
 	v, t := a.expr(e.Results[0], env)
 	if t != a.retTy[key] {
 		bail("result type of %s", nodeStr(e))
@@ -748,7 +888,7 @@ func (a *algo) block(list []ast.Stmt, env aenv, tail string, noReturn bool) stri
 				bail("var with initialiser")
 			}
 			t := goType(vs.Type)
-			zero := map[aty]string{tStr: "([] : Str)", tBool: "false", tInt: "(0 : Int)"}[t]
+			zero := map[aty]string{tStr: "([] : Str)", tBool: "false", tInt: "(0 : Int)", tSliceStr: "([] : List Str)"}[t]
 			if zero == "" {
 				bail("var of type %s", nodeStr(vs.Type))
 			}
@@ -772,8 +912,20 @@ func (a *algo) block(list []ast.Stmt, env aenv, tail string, noReturn bool) stri
 		}
 		return fmt.Sprintf("let %s := %s %s 1;\n", lv(id.Name), lv(id.Name), op) + cont(env)
 	case *ast.ExprStmt:
-		// a call for effect: only mutating File methods make sense; not needed by the subset
+		if c, ok := x.X.(*ast.CallExpr); ok && strings.Join(strings.Fields(nodeStr(c.Fun)), "") == "sort.Strings" && len(c.Args) == 1 {
+			if id, ok := c.Args[0].(*ast.Ident); ok && env[id.Name] == tSliceStr {
+				return fmt.Sprintf("let %s : List Str := (Go.sortStrings %s);\n", lv(id.Name), lv(id.Name)) + cont(env)
+			}
+		}
 		bail("expression statement %s", nodeStr(x))
+	case *ast.BranchStmt:
+		if x.Tok == token.CONTINUE && x.Label == nil && a.inLoopBody > 0 {
+			if tail == "" {
+				bail("continue outside a loop body")
+			}
+			return tail
+		}
+		bail("%s statement", x.Tok)
 	case *ast.AssignStmt:
 		return a.assign(x, env, cont)
 	case *ast.IfStmt:
@@ -846,6 +998,23 @@ func (a *algo) assign(x *ast.AssignStmt, env aenv, cont func(aenv) string) strin
 		bail("parallel assignment %s", nodeStr(x))
 	}
 	l, r := x.Lhs[0], x.Rhs[0]
+	if id, ok := l.(*ast.Ident); ok && x.Tok == token.ADD_ASSIGN && env[id.Name] == tStr {
+		v, t := a.expr(r, env)
+		if t != tStr {
+			bail("+= of a non-string")
+		}
+		return fmt.Sprintf("let %s : Str := %s ++ %s;\n", lv(id.Name), lv(id.Name), v) + cont(env)
+	}
+	if ix, ok := l.(*ast.IndexExpr); ok && x.Tok == token.ASSIGN {
+		if id, ok := ix.X.(*ast.Ident); ok && env[id.Name] == tMapDef {
+			k, kt := a.expr(ix.Index, env)
+			v, vt := a.expr(r, env)
+			if kt != tStr || vt != tDef {
+				bail("store %s", nodeStr(x))
+			}
+			return fmt.Sprintf("let %s : List (Str × Def) := AList.insert %s %s %s;\n", lv(id.Name), lv(id.Name), k, v) + cont(env)
+		}
+	}
 	switch lt := l.(type) {
 	case *ast.Ident:
 		v, t := a.expr(r, env)
@@ -920,7 +1089,145 @@ func elseList(s *ast.IfStmt) []ast.Stmt {
 	return nil
 }
 
+// `if _, err := <write>; err != nil { return err }` and `if err := <writer function>(…, w, …); err != nil
+// { return err }`: the bytes are appended to the writer's accumulated output
+func (a *algo) writeStmt(x *ast.IfStmt, env aenv) (string, bool) {
+	as, ok := x.Init.(*ast.AssignStmt)
+	if !ok || as.Tok != token.DEFINE || len(as.Rhs) != 1 || x.Else != nil || len(x.Body.List) != 1 {
+		return "", false
+	}
+	errName := ""
+	switch len(as.Lhs) {
+	case 1:
+		errName = nodeStr(as.Lhs[0])
+	case 2:
+		if nodeStr(as.Lhs[0]) != "_" {
+			return "", false
+		}
+		errName = nodeStr(as.Lhs[1])
+	default:
+		return "", false
+	}
+	if strings.Join(strings.Fields(nodeStr(x.Cond)), "") != errName+"!=nil" {
+		return "", false
+	}
+	if rs, ok := x.Body.List[0].(*ast.ReturnStmt); !ok || len(rs.Results) != 1 || nodeStr(rs.Results[0]) != errName {
+		return "", false
+	}
+	call, ok := as.Rhs[0].(*ast.CallExpr)
+	if !ok {
+		return "", false
+	}
+	return a.writeCall(call, env)
+}
+
+func (a *algo) writeCall(call *ast.CallExpr, env aenv) (string, bool) {
+	fun := strings.Join(strings.Fields(nodeStr(call.Fun)), "")
+	wr := func(e ast.Expr) string {
+		id, ok := e.(*ast.Ident)
+		if !ok || env[id.Name] != tWriter {
+			bail("write to %s, which is not a writer parameter", nodeStr(e))
+		}
+		return lv(id.Name)
+	}
+	app := func(w, v string) (string, bool) { return fmt.Sprintf("let %s : Str := %s ++ %s;\n", w, w, v), true }
+	switch fun {
+	case "fmt.Fprint":
+		if len(call.Args) < 1 {
+			return "", false
+		}
+		w := wr(call.Args[0])
+		var parts []string
+		for _, ar := range call.Args[1:] {
+			v, t := a.expr(ar, env)
+			if t != tStr {
+				bail("fmt.Fprint of a non-string")
+			}
+			parts = append(parts, v)
+		}
+		return app(w, "("+strings.Join(parts, " ++ ")+")")
+	case "fmt.Fprintf":
+		if len(call.Args) < 2 {
+			return "", false
+		}
+		w := wr(call.Args[0])
+		bl, ok := call.Args[1].(*ast.BasicLit)
+		if !ok || bl.Kind != token.STRING {
+			bail("format is not a literal")
+		}
+		format, _ := strconv.Unquote(bl.Value)
+		return app(w, a.sprintf(format, call.Args[2:], env))
+	case "io.WriteString":
+		if len(call.Args) != 2 {
+			return "", false
+		}
+		w := wr(call.Args[0])
+		v, t := a.expr(call.Args[1], env)
+		if t != tStr {
+			bail("io.WriteString of a non-string")
+		}
+		return app(w, v)
+	}
+	sel, ok := call.Fun.(*ast.SelectorExpr)
+	if !ok {
+		return "", false
+	}
+	// w.Write([]byte(x))
+	if id, ok := sel.X.(*ast.Ident); ok && env[id.Name] == tWriter && sel.Sel.Name == "Write" && len(call.Args) == 1 {
+		v, t := a.expr(call.Args[0], env)
+		if t != tStr {
+			bail("Write of a non-string")
+		}
+		return app(lv(id.Name), v)
+	}
+	// a translated writer function: Comment(c).render(f, w, nil), f.renderImports(w)
+	key, recvArg := "", ""
+	if inner, ok := sel.X.(*ast.CallExpr); ok && nodeStr(inner.Fun) == "Comment" && len(inner.Args) == 1 {
+		v, t := a.expr(inner.Args[0], env)
+		if t != tStr {
+			bail("Comment of a non-string")
+		}
+		key, recvArg = "comment."+sel.Sel.Name, v
+	} else if id, ok := sel.X.(*ast.Ident); ok && id.Name == "f" {
+		key = "File." + sel.Sel.Name
+	} else {
+		return "", false
+	}
+	d := a.fns[key]
+	if d == nil {
+		bail("call of %s, which is not a translated function", key)
+	}
+	wp := writerParam(d)
+	if wp == "" {
+		return "", false
+	}
+	// which argument is the writer
+	wi, i := -1, 0
+	for _, p := range d.Type.Params.List {
+		for _, n := range p.Names {
+			if n.Name == wp {
+				wi = i
+			}
+			i++
+		}
+	}
+	if wi < 0 || wi >= len(call.Args) {
+		return "", false
+	}
+	w := wr(call.Args[wi])
+	v, t := a.callFnRecv(key, recvArg, call, env)
+	if t != tWriter {
+		bail("%s does not return its output", key)
+	}
+	return fmt.Sprintf("let %s : Str := %s;\n", w, v), true
+}
+
 func (a *algo) ifStmt(x *ast.IfStmt, rest []ast.Stmt, env aenv, tail string, noReturn bool) string {
+	if x.Init != nil {
+		if line, ok := a.writeStmt(x, env); ok {
+			return line + a.block(rest, env, tail, noReturn)
+		}
+	}
 	pre := ""
 	ienv := env
 	if x.Init != nil {
@@ -940,15 +1247,22 @@ func (a *algo) ifStmt(x *ast.IfStmt, rest []ast.Stmt, env aenv, tail string, noR
 	thenRet := returnsAll(x.Body.List)
 	els := elseList(x)
 	if thenRet {
-		if noReturn {
+		if noReturn && hasReturn(x.Body) {
 			bail("return inside a joined block or loop body")
 		}
-		th := a.block(x.Body.List, ienv.copy(), "", false)
+		thTail := ""
+		if noReturn {
+			thTail = tail // the branch ends in `continue`: the loop body's state is its value
+		}
+		th := a.block(x.Body.List, ienv.copy(), thTail, noReturn)
 		var el string
 		if x.Else == nil {
 			el = a.block(rest, env, tail, noReturn)
 		} else if returnsAll(els) {
-			el = a.block(els, ienv.copy(), "", false)
+			if noReturn && hasReturn(x.Else) {
+				bail("return inside a joined block or loop body")
+			}
+			el = a.block(els, ienv.copy(), thTail, noReturn)
 		} else {
 			if hasReturn(x.Else) {
 				bail("partial return in an else branch")
@@ -1027,7 +1341,9 @@ func (a *algo) forStmt(x *ast.ForStmt, env aenv, cont func(aenv) string) string 
 	}
 	st := a.tmp()
 	t := a.tmp()
+	a.inLoopBody++
 	b := a.block(body, lenv.copy(), tupleOf(vars), true)
+	a.inLoopBody--
 	loop := fmt.Sprintf("(Go.loop fuel (fun %s =>\n%s%s) (fun %s =>\n%s%s) %s)", st, unpack(st, vars), cond, st, unpack(st, vars), b, tupleOf(vars))
 	// loop-scoped variables disappear; outer ones are rebound
 	var outer []string
@@ -1166,7 +1482,9 @@ func (a *algo) rangeStmt(x *ast.RangeStmt, rest []ast.Stmt, env aenv, tail strin
 			pre += "let " + lv(valName) + " := kv.2;\n"
 		}
 	}
+	a.inLoopBody++
 	body := a.block(x.Body.List, e2, tupleOf(outer), true)
+	a.inLoopBody--
 	return fmt.Sprintf("let %s := (List.foldl (fun %s %s =>\n%s%s) %s %s);\n", t, st, binders, pre, body, tupleOf(outer), coll) + unpack(t, outer) + a.block(rest, env, tail, noReturn)
 }
 
@@ -1211,18 +1529,45 @@ func (a *algo) translate(key string) {
 	a.cur, a.regexes = key, map[string]string{}
 	env := aenv{}
 	var params []string
-	if strings.HasPrefix(key, "File.") {
-		env["f"] = tFile
-		if len(d.Recv.List[0].Names) != 1 || d.Recv.List[0].Names[0].Name != "f" {
-			bail("receiver is not named f")
+	if d.Recv != nil && len(d.Recv.List) == 1 {
+		if len(d.Recv.List[0].Names) != 1 {
+			bail("unnamed receiver")
+		}
+		rn := d.Recv.List[0].Names[0].Name
+		switch {
+		case strings.HasPrefix(key, "File."):
+			if rn != "f" {
+				bail("receiver is not named f")
+			}
+			env["f"] = tFile
+		case strings.HasPrefix(key, "comment."):
+			env[rn] = tComment
+			params = append(params, fmt.Sprintf("(%s : Str)", lv(rn)))
+		case strings.HasPrefix(key, "tag."):
+			env[rn] = tTag
+			params = append(params, fmt.Sprintf("(%s : List (Str × Str))", lv(rn)))
+		default:
+			bail("receiver type")
 		}
 	}
+	a.writer[key] = writerParam(d)
 	for _, p := range d.Type.Params.List {
 		t := goType(p.Type)
-		if t == tUnknown || t == tFile {
+		if t == tIgnored {
+			continue
+		}
+		if t == tUnknown {
 			bail("parameter type %s", nodeStr(p.Type))
 		}
 		for _, n := range p.Names {
+			if t == tFile {
+				if n.Name != "f" || strings.HasPrefix(key, "File.") {
+					bail("File parameter %s", n.Name)
+				}
+				env["f"] = tFile
+				params = append(params, "(f : FileS)")
+				continue
+			}
 			env[n.Name] = t
 			params = append(params, fmt.Sprintf("(%s : %s)", lv(n.Name), leanTy[t]))
 		}
@@ -1235,6 +1580,14 @@ func (a *algo) translate(key string) {
 		rt = goType(d.Type.Results.List[0].Type)
 		if rt == tUnknown {
 			bail("result type %s", nodeStr(d.Type.Results.List[0].Type))
+		}
+		if rt == tError {
+			// a function that writes to an io.Writer and returns only write errors: the translation
+			// returns the bytes written (writes to the in-memory buffers jennifer passes never fail)
+			if a.writer[key] == "" {
+				bail("returns error without a writer parameter")
+			}
+			rt = tWriter
 		}
 	}
 	a.retTy[key] = rt
@@ -1283,11 +1636,13 @@ func indent(s string) string {
 
 // the functions of the import registry, in the order a reader expects
 var algoTargets = []string{".IsReservedWord", "File.isLocal", "File.isValidAlias", "File.isDotImport", "File.prefixed", ".guessAlias",
-	"File.register", "File.Anon", "File.ImportName", "File.ImportNames", "File.ImportAlias"}
+	"File.register", "File.Anon", "File.ImportName", "File.ImportNames", "File.ImportAlias",
+	// text-producing functions without recursion through Code (tie 1b, second group)
+	"comment.render", "tag.isNull", "tag.render", "File.renderImports"}
 
 func translateAlgorithms(fns []fn, reservedVar, stdVar string) (lean string, summary string) {
 	a := &algo{fns: map[string]*ast.FuncDecl{}, reservedVar: reservedVar, stdVar: stdVar, mutates: map[string]bool{}, needsFuel: map[string]bool{}, needsLib: map[string]bool{},
-		retTy: map[string]aty{}, out: map[string]string{}, failed: map[string]string{}, inProgress: map[string]bool{}, regexes: map[string]string{}}
+		retTy: map[string]aty{}, out: map[string]string{}, failed: map[string]string{}, inProgress: map[string]bool{}, regexes: map[string]string{}, writer: map[string]string{}}
 	for _, f := range fns {
 		a.fns[f.recv+"."+f.name] = f.decl
 	}
